@@ -726,7 +726,7 @@ def run(chk, p, t):
         "step / output-step combinations."
     )
     chk.assumptions += ["SQLAlchemy session semantics (commit / rollback / close)", "SQLite does not enforce the declared foreign keys (hence the static obligation)", "rows loaded from the importer are epoch aligned (external input)"]
-    steps = [("C09.R1", rule_r1), ("C09.R2", rule_r2), ("C09.R3", rule_r3), ("C09.R4", rule_r4), ("C09.R5", rule_r5), ("C09.R6", rule_r6_r7), ("C09.R8", rule_r8)]
+    steps = [("C09.R1", rule_r1), ("C09.R2", rule_r2), ("C09.R3", rule_r3), ("C09.R4", rule_r4), ("C09.R5", rule_r5), ("C09.R6", rule_r6_r7), ("C09.R8", rule_r8), ("C09.R9", rule_r9)]
     for rid, fn in steps:
         if chk.only_rule is not None and chk.only_rule != rid and not (chk.only_rule == "C09.R7" and rid == "C09.R6"):
             continue
@@ -738,3 +738,65 @@ def run(chk, p, t):
 
 
 _ = re
+
+
+def rule_r9(chk, p, t):
+    r = chk.rule(
+        "C09.R9",
+        "snapshot results replace, they do not accumulate",
+        1,
+        "a result field that is a snapshot of a buffer of the worker's copy of the agent (which started as a copy of "
+        "the driver's buffer, still holding the not-yet-written rows) must replace the driver's buffer; appending it "
+        "re-adds every buffered row at every step (duplicate rows whenever the output step exceeds the physics step)",
+    )
+    ea = EffectAnalysis(p, t)
+    reg_base = p.cls("resonaate.parallel.Registration")
+    n = 0
+    for sc in p.subclasses(reg_base):
+        pr = sc.methods.get("processResults")
+        if pr is None:
+            continue
+        res = pr.params[1] if len(pr.params) > 1 else "results"
+        # the worker of this registration's module
+        workers = [f for f in sc.module.functions.values() if any("ray.remote" in unparse(d) for d in f.node.decorator_list)]
+        if len(workers) != 1:
+            continue
+        w = workers[0]
+        ctor = [c for c in walk_no_nested(w.node) if isinstance(c, ast.Call) and isinstance(c.func, ast.Name) and c.func.id.endswith("Result")]
+        if not ctor:
+            continue
+        snap = {}
+        for k in ctor[-1].keywords:
+            v = k.value
+            if isinstance(v, ast.Attribute) and isinstance(v.value, ast.Name):
+                snap[k.arg] = v.attr  # result field <- <copy>.<buffer>
+        # direct merges in processResults
+        for node in walk_no_nested(pr.node):
+            tgt = val = kind = None
+            if isinstance(node, ast.Assign) and isinstance(node.targets[0], ast.Attribute):
+                tgt, val, kind = node.targets[0], node.value, "rebind"
+            elif isinstance(node, ast.AugAssign) and isinstance(node.target, ast.Attribute):
+                tgt, val, kind = node.target, node.value, "accum"
+            elif isinstance(node, ast.Call) and isinstance(node.func, ast.Attribute) and node.func.attr in ("extend", "append", "update") and isinstance(node.func.value, ast.Attribute) and node.args:
+                tgt, val, kind = node.func.value, node.args[0], "accum"
+            if tgt is None or not (isinstance(val, ast.Attribute) and isinstance(val.value, ast.Name) and val.value.id == res):
+                continue
+            if not unparse(tgt).startswith("self._registrant."):
+                continue
+            g = val.attr
+            if snap.get(g) != tgt.attr:
+                continue
+            n += 1
+            cons = f"{pr.qualname}:{tgt.attr}"
+            if kind == "rebind":
+                r.ok(cons, f"`{tgt.attr}` is replaced by the worker's snapshot results.{g}", pr.loc(node))
+            else:
+                r.violation(
+                    cons,
+                    f"snapshot-accumulated:{tgt.attr}",
+                    f"results.{g} is the worker copy's whole `{tgt.attr}` buffer (it already contains the driver's not-yet-written entries); `{unparse(node)[:80]}` appends it to the driver's buffer, so buffered rows are duplicated at every step until the next output",
+                    pr.loc(node),
+                )
+    if n == 0:
+        r.error("snapshot-merges", "no snapshot merge site found (EstUpdateRegistration._detected_maneuvers confirmed by hand)")
+    _ = ea
